@@ -121,7 +121,7 @@ Definition bstep (chk : list jt -> list N -> bool) (n : nat) (s : bstate) : bsta
 
 Definition check_block (chk : list jt -> list jt -> list jt -> list N -> bool) (b : blockT) : list N :=
   let '(n, pre, post, start, count, ws) := b in
-  let '(_, _, _, _, acc) := N.iter count (bstep (chk (ctx_of pre) (ctx_of post)) (N.to_nat n)) (start, [], ws, 5%nat, []) in
+  let '(_, _, _, _, acc) := N.iter count (bstep (fun t o => chk (ctx_of pre) t (ctx_of post) o) (N.to_nat n)) (start, [], ws, 5%nat, []) in
   rev acc.
 
 (* answer: flat list [block number; sequence index; block number; sequence index; ...] *)
